@@ -219,32 +219,51 @@ func c12case(s *Sexp) string {
 	case "collector":
 		terms := s.List[2:]
 		errs := env.children(terms)
-		ec := &erc.Collector{}
-		wg := &sync.WaitGroup{}
-		const workers = 4
-		for w := 0; w < workers; w++ {
-			wg.Add(1)
-			go func(w int) {
-				defer wg.Done()
-				for i := w; i < len(errs); i += workers {
-					ec.Add(errs[i])
-					_ = ec.Len()
-				}
-			}(w)
+		// The same partition of the terms is added by concurrent goroutines in many rounds (a fresh
+		// Collector each): whatever the interleaving, the collector must end up holding exactly the
+		// constituents added, so every round gives the same canonical observation. A round that
+		// differs (an Add lost inside another Add's window) is reported with both observations.
+		round := func(workers int) string {
+			ec := &erc.Collector{}
+			wg := &sync.WaitGroup{}
+			start := make(chan struct{})
+			for w := 0; w < workers; w++ {
+				wg.Add(1)
+				go func(w int) {
+					defer wg.Done()
+					<-start
+					for i := w; i < len(errs); i += workers {
+						ec.Add(errs[i])
+						_ = ec.Len()
+					}
+				}(w)
+			}
+			close(start)
+			wg.Wait()
+			r := ec.Resolve()
+			unw := []string{}
+			for _, e := range ers.Unwind(r) {
+				unw = append(unw, env.label(e))
+			}
+			sort.Strings(unw)
+			isb := env.isBits(r, s.List[1].List)
+			if r == nil {
+				isb = strings.Repeat("0", len(s.List[1].List))
+			}
+			return fmt.Sprintf("len=%d nil=%s is=%s unwind=[%s]", ec.Len(), bit(r == nil && !ec.HasErrors()),
+				isb, strings.Join(unw, ","))
 		}
-		wg.Wait()
-		r := ec.Resolve()
-		unw := []string{}
-		for _, e := range ers.Unwind(r) {
-			unw = append(unw, env.label(e))
+		first := round(4)
+		rounds := 48
+		if len(errs) < 2 {
+			rounds = 2
 		}
-		sort.Strings(unw)
-		isb := env.isBits(r, s.List[1].List)
-		if r == nil {
-			isb = strings.Repeat("0", len(s.List[1].List))
+		for i := 0; i < rounds; i++ {
+			if o := round(2 + i%7); o != first {
+				return "UNSTABLE " + first + " VERSUS " + o
+			}
 		}
-		return fmt.Sprintf("len=%d nil=%s is=%s unwind=[%s]", ec.Len(), bit(r == nil && !ec.HasErrors()),
-			isb, strings.Join(unw, ","))
+		return first
 	}
 	return "bad-op"
 }
